@@ -9,7 +9,7 @@ open VgiVerif.Gen.C04 (Shape)
 def repaired : Shape :=
   { drainVersion := true, drainParams := true, drainInit := true, drainUnknown := false, initChecks := true,
     cliDrainOverErr := true, cliDrainSurvivesCb := true, unaryDrainOnCb := true, hdrDrainOnCb := true,
-    hdrAbortCloses := true, emptyRequestReplies := true }
+    hdrAbortCloses := true, emptyRequestReplies := true, initErrorFlushesLogs := true, failFlushesLogs := true }
 
 namespace Aux
 
@@ -24,6 +24,8 @@ namespace Aux
 @[simp] theorem rep_hdrDrainOnCb : repaired.hdrDrainOnCb = true := rfl
 @[simp] theorem rep_hdrAbortCloses : repaired.hdrAbortCloses = true := rfl
 @[simp] theorem rep_emptyRequestReplies : repaired.emptyRequestReplies = true := rfl
+@[simp] theorem rep_initErrorFlushesLogs : repaired.initErrorFlushesLogs = true := rfl
+@[simp] theorem rep_failFlushesLogs : repaired.failFlushesLogs = true := rfl
 
 def its (xs : List SItem) : List SFr := xs.map .it
 
@@ -247,16 +249,27 @@ theorem round_quiet (sh : Shape) (svc : Svc) (pol : Nat → Bool) (s2c : List SF
 /-- both streams of the session are open, nothing ended, not closed -/
 def both : Sess := ⟨true, true, false, false⟩
 
+/-- the server discards the client's input up to its EOS: the final drain of `_serve_stream`, or
+`_drain_refused_stream_input` once the input stream has been opened -/
+def Draining (srv : SrvPc) : Prop := srv = .finDrain ∨ srv = .refDrain
+
+theorem draining_fold (svc : Svc) {srv : SrvPc} (h : Draining srv) :
+    srvFold repaired svc srv [.it .inp] = (srv, [], []) ∧
+    srvFold repaired svc srv [.eos] = (.boundary, [], []) ∧
+    srvFold repaired svc srv [.it .cancel, .eos] = (.boundary, [], []) ∧
+    srvFold repaired svc srv [.it .inp, .eos] = (.boundary, [], []) := by
+  rcases h with rfl | rfl <;> simp [srvFold, srvOn]
+
 /-- The joint states between two operations of a stream call (all have: nothing for the server to read, client idle). -/
 inductive Phase : St → Prop
   | noSess (res n wc ws) : Phase ⟨[], [], .boundary, ⟨none, none, res, n⟩, wc, ws⟩
   | closed (s res n wc ws) : s.closed = true → Phase ⟨[], [], .boundary, ⟨some s, none, res, n⟩, wc, ws⟩
-  | refused (res n wc ws) : Phase ⟨[], errStream, .refOpen, ⟨some .fresh, none, res, n⟩, wc, ws⟩
+  | refused (xs res n wc ws) : Phase ⟨[], .op :: (its xs ++ [.eos]), .refOpen, ⟨some .fresh, none, res, n⟩, wc, ws⟩
   | fresh (ex hdr il steps res n wc ws) : Phase ⟨[], [], .inOpen ex hdr il steps, ⟨some .fresh, none, res, n⟩, wc, ws⟩
   | live (ex steps k pend res n wc ws) : SItem.err ∉ pend →
       Phase ⟨[], its pend, .loop ex steps k, ⟨some both, none, res, n⟩, wc, ws⟩
-  | ending (pend res n wc ws) : Phase ⟨[], its pend ++ [.eos], .finDrain, ⟨some both, none, res, n⟩, wc, ws⟩
-  | ended (res n wc ws) : Phase ⟨[], [], .finDrain, ⟨some ⟨true, true, true, false⟩, none, res, n⟩, wc, ws⟩
+  | ending (srv pend res n wc ws) : Draining srv → Phase ⟨[], its pend ++ [.eos], srv, ⟨some both, none, res, n⟩, wc, ws⟩
+  | ended (srv res n wc ws) : Draining srv → Phase ⟨[], [], srv, ⟨some ⟨true, true, true, false⟩, none, res, n⟩, wc, ws⟩
 
 theorem round_phase (sh : Shape) (svc : Svc) (pol : Nat → Bool) {st : St} (h : Phase st) : round sh svc pol st = st := by
   cases h <;> exact round_quiet ..
@@ -275,65 +288,65 @@ theorem phase_settled {st : St} (h : Phase st) : st.settled = true ∧ st.blocke
 
 theorem its_logs (n : Nat) : logs n = its (List.replicate n SItem.log) := by simp [logs, its]
 
-theorem stepOut_cont {ex : Bool} {s : StepB} {out : List SItem} (h : stepOut ex s = (.cont, out)) :
+theorem stepOut_cont {fl ex : Bool} {s : StepB} {out : List SItem} (h : stepOut fl ex s = (.cont, out)) :
     SItem.err ∉ out ∧ SItem.data ∈ out := by
   unfold stepOut at h
   cases ha : s.act <;> cases ex <;> simp [ha] at h
   all_goals (subst h; simp)
 
 /-- the server, waiting in the final drain or after a refusal, swallows the end of the client's input -/
-theorem round_finDrain_eos (svc : Svc) (pol : Nat → Bool) (so : Option Sess) (res : Res) (n : Nat) (wc : List CFr)
-    (ws : List SFr) :
-    round repaired svc pol ⟨[.eos], [], .finDrain, ⟨so, none, res, n⟩, wc, ws⟩
+theorem round_finDrain_eos (svc : Svc) (pol : Nat → Bool) {srv : SrvPc} (hd : Draining srv) (so : Option Sess) (res : Res)
+    (n : Nat) (wc : List CFr) (ws : List SFr) :
+    round repaired svc pol ⟨[.eos], [], srv, ⟨so, none, res, n⟩, wc, ws⟩
       = ⟨[], [], .boundary, ⟨so, none, res, n⟩, wc, ws⟩ := by
-  simp [round, srvFold, srvOn, cliFold_idle]
+  simp [round, (draining_fold svc hd).2.1, cliFold_idle]
 
 /-- `_read_response` after the server has answered the input batch: the operation ends in a phase -/
 theorem read_core (svc : Svc) (pol : Nat → Bool) (p : Purpose) (res : Res) (n : Nat) (wc : List CFr) (ws : List SFr)
     (srv : SrvPc) (xs : List SItem) (tail : List SFr)
     (hcase : (∃ ex steps k, srv = .loop ex steps k ∧ tail = [] ∧ SItem.err ∉ xs ∧ SItem.data ∈ xs) ∨
-             (srv = .finDrain ∧ tail = [.eos]))
+             (Draining srv ∧ tail = [.eos]))
     {c2 : Cli} {srest : List SFr} {cout : List CFr}
     (h : cliFold repaired pol ⟨some both, some (.sessRead p), res, n⟩ (its xs ++ tail) = (c2, srest, cout)) :
     Phase (round repaired svc pol (round repaired svc pol ⟨cout, srest, srv, c2, wc, ws⟩)) := by
-  have closing : ∀ (s : Sess) (r : Res) (m : Nat), s.closed = true →
-      Phase (round repaired svc pol (round repaired svc pol ⟨[.eos], [], .finDrain, ⟨some s, none, r, m⟩, wc, ws⟩)) := by
-    intro s r m hs
-    rw [round_finDrain_eos, round_quiet]
+  have closing : ∀ (s : Sess) (r : Res) (m : Nat), s.closed = true → Draining srv →
+      Phase (round repaired svc pol (round repaired svc pol ⟨[.eos], [], srv, ⟨some s, none, r, m⟩, wc, ws⟩)) := by
+    intro s r m hs hd
+    rw [round_finDrain_eos svc pol hd, round_quiet]
     exact Phase.closed s r m wc ws hs
   rcases cliFold_sessRead pol both p res tail xs n with ⟨n', hall, e⟩ | ⟨r', n', ps, ys, hx, _, e⟩ | ⟨n', ps, ys, hx, e⟩
   · -- every batch was a log the callback accepted: the read goes on into `tail`
-    rcases hcase with ⟨ex, steps, k, _, _, _, hd⟩ | ⟨rfl, rfl⟩
+    rcases hcase with ⟨ex, steps, k, _, _, _, hd⟩ | ⟨hdr, rfl⟩
     · exact absurd (hall _ hd) (by simp)
     · rw [e] at h
       cases p with
       | tick =>
         simp [cliFold, cliOn, updSess, both, Sess.close, endInput] at h
         obtain ⟨rfl, rfl, rfl⟩ := h
-        exact closing _ _ _ rfl
+        exact closing _ _ _ rfl hdr
       | send =>
         simp [cliFold, cliOn, updSess, both] at h
         obtain ⟨rfl, rfl, rfl⟩ := h
         rw [round_quiet, round_quiet]
-        exact Phase.ended ..
+        exact Phase.ended _ _ _ _ _ hdr
   · -- a data batch was returned / the callback raised: the rest stays unread
     rw [e] at h
     simp at h
     obtain ⟨rfl, rfl, rfl⟩ := h
-    rcases hcase with ⟨ex, steps, k, rfl, rfl, hne, _⟩ | ⟨rfl, rfl⟩
+    rcases hcase with ⟨ex, steps, k, rfl, rfl, hne, _⟩ | ⟨hdr, rfl⟩
     · rw [List.append_nil, round_quiet, round_quiet]
       refine Phase.live ex steps k ys r' n' wc ws ?_
       intro hm; exact hne (by simp [hx, hm])
     · rw [round_quiet, round_quiet]
-      exact Phase.ending ..
+      exact Phase.ending _ _ _ _ _ _ hdr
   · -- an EXCEPTION batch: `close()` ends the input and drains the output
-    rcases hcase with ⟨ex, steps, k, _, _, hne, _⟩ | ⟨rfl, rfl⟩
+    rcases hcase with ⟨ex, steps, k, _, _, hne, _⟩ | ⟨hdr, rfl⟩
     · exact absurd (by simp [hx]) hne
     · obtain ⟨r', m, hd⟩ := cliFold_sessDrain pol ys [] both.close .error true res n'
       rw [e, hd] at h
       simp [pre, endInput, both] at h
       obtain ⟨rfl, rfl, rfl⟩ := h
-      exact closing _ _ _ rfl
+      exact closing _ _ _ rfl hdr
 
 theorem execOp_eq {sh : Shape} {svc : Svc} {pol : Nat → Bool} {op : Op} {c2s : List CFr} {s2c : List SFr} {srv : SrvPc}
     {cli : Cli} {wc : List CFr} {ws : List SFr} {cli' : Cli} {out : List CFr} (h : cliStart op cli = (cli', out)) :
@@ -359,13 +372,21 @@ theorem step_read (svc : Svc) (pol : Nat → Bool) (p : Purpose) {st : St} (h : 
         = ⟨[], [], .boundary, ⟨some s, none, .refused, n⟩, wc, ws⟩ := by
       cases p <;> simp [execOp, readOp, cliStart, Cli.fin, hs, round_quiet]
     rw [this]; exact Phase.closed s _ n wc ws hs
-  | refused res n wc ws =>
-    have : execOp repaired svc pol (readOp p) ⟨[], errStream, .refOpen, ⟨some .fresh, none, res, n⟩, wc, ws⟩
-        = ⟨[], [], .boundary, ⟨some ⟨true, true, true, true⟩, none, .error, n⟩, wc ++ [.op, .it .inp] ++ [.eos], ws⟩ := by
-      cases p <;>
-        simp [execOp, readOp, cliStart, Sess.fresh, errStream, round, srvFold, srvOn, cliFold, cliOn, updSess, Sess.close,
-          endInput, cliFold_idle]
-    rw [this]; exact Phase.closed _ _ _ _ _ rfl
+  | refused xs res n wc ws =>
+    -- the server waits for (and discards) the input stream; the client opens it, reads the error stream, closes
+    have hstart : cliStart (readOp p) ⟨some .fresh, none, res, n⟩
+        = (⟨some ⟨true, false, false, false⟩, some (.sessOpen p), res, n⟩, [.op, .it .inp]) := by
+      cases p <;> simp [readOp, cliStart, Sess.fresh]
+    rw [execOp_eq hstart, List.nil_append]
+    have hsrv : srvFold repaired svc .refOpen [.op, .it .inp] = (.refDrain, [], []) := by simp [srvFold, srvOn]
+    cases hcl : cliFold repaired pol ⟨some both, some (.sessRead p), res, n⟩ (its xs ++ [.eos]) with
+    | mk c2 t =>
+      obtain ⟨srest, cout⟩ := t
+      have hcli : cliFold repaired pol ⟨some ⟨true, false, false, false⟩, some (.sessOpen p), res, n⟩
+          ((.op :: (its xs ++ [.eos])) ++ []) = (c2, srest, cout) := by
+        simp [cliFold, cliOn, updSess, ← hcl, both]
+      rw [round_eq hsrv hcli, List.nil_append]
+      exact read_core svc pol p res n _ _ _ xs _ (Or.inr ⟨Or.inr rfl, rfl⟩) hcl
   | fresh ex hdr il steps res n wc ws =>
     -- the input stream is opened with the first batch; the server opens its output stream and runs process() 0
     have hstart : cliStart (readOp p) ⟨some .fresh, none, res, n⟩
@@ -376,7 +397,7 @@ theorem step_read (svc : Svc) (pol : Nat → Bool) (p : Purpose) {st : St} (h : 
     let hl : List SItem := if hdr then [] else List.replicate il SItem.log
     have hhl : (if hdr then [] else logs il) = its hl := by
       cases hdr <;> simp [hl, its_logs]
-    cases hso : stepOut ex (stepAt ex steps 0) with
+    cases hso : stepOut true ex (stepAt ex steps 0) with
     | mk c out =>
       have hsrv : srvFold repaired svc (.inOpen ex hdr il steps) [.op, .it .inp]
           = (if c = .cont then .loop ex steps 1 else .finDrain, [],
@@ -399,14 +420,14 @@ theorem step_read (svc : Svc) (pol : Nat → Bool) (p : Purpose) {st : St} (h : 
           rcases List.mem_append.1 hm with hm | hm
           · cases hdr <;> simp [hl] at hm
           · exact hne hm
-        | done => exact Or.inr ⟨by simp, by simp⟩
-        | fail => exact Or.inr ⟨by simp, by simp⟩
+        | done => exact Or.inr ⟨Or.inl (by simp), by simp⟩
+        | fail => exact Or.inr ⟨Or.inl (by simp), by simp⟩
   | live ex steps k pend res n wc ws hne =>
     have hstart : cliStart (readOp p) ⟨some both, none, res, n⟩
         = (⟨some both, some (.sessRead p), res, n⟩, [.it .inp]) := by
       cases p <;> simp [readOp, cliStart, both]
     rw [execOp_eq hstart, List.nil_append]
-    cases hso : stepOut ex (stepAt ex steps k) with
+    cases hso : stepOut true ex (stepAt ex steps k) with
     | mk c out =>
       have hsrv : srvFold repaired svc (.loop ex steps k) [.it .inp]
           = (if c = .cont then .loop ex steps (k + 1) else .finDrain, [],
@@ -429,33 +450,33 @@ theorem step_read (svc : Svc) (pol : Nat → Bool) (p : Purpose) {st : St} (h : 
           rcases List.mem_append.1 hm with hm | hm
           · exact hne hm
           · exact hne' hm
-        | done => exact Or.inr ⟨by simp, by simp⟩
-        | fail => exact Or.inr ⟨by simp, by simp⟩
-  | ending pend res n wc ws =>
+        | done => exact Or.inr ⟨Or.inl (by simp), by simp⟩
+        | fail => exact Or.inr ⟨Or.inl (by simp), by simp⟩
+  | ending srv pend res n wc ws hdr =>
     have hstart : cliStart (readOp p) ⟨some both, none, res, n⟩
         = (⟨some both, some (.sessRead p), res, n⟩, [.it .inp]) := by
       cases p <;> simp [readOp, cliStart, both]
     rw [execOp_eq hstart, List.nil_append]
-    have hsrv : srvFold repaired svc .finDrain [.it .inp] = (.finDrain, [], []) := by simp [srvFold, srvOn]
+    have hsrv : srvFold repaired svc srv [.it .inp] = (srv, [], []) := (draining_fold svc hdr).1
     cases hcl : cliFold repaired pol ⟨some both, some (.sessRead p), res, n⟩ (its pend ++ [.eos]) with
     | mk c2 t =>
       obtain ⟨srest, cout⟩ := t
       have hcli : cliFold repaired pol ⟨some both, some (.sessRead p), res, n⟩ ((its pend ++ [.eos]) ++ [])
           = (c2, srest, cout) := by rw [List.append_nil, hcl]
       rw [round_eq hsrv hcli, List.nil_append]
-      exact read_core svc pol p res n _ _ _ pend _ (Or.inr ⟨rfl, rfl⟩) hcl
-  | ended res n wc ws =>
+      exact read_core svc pol p res n _ _ _ pend _ (Or.inr ⟨hdr, rfl⟩) hcl
+  | ended srv res n wc ws hdr =>
     cases p with
     | tick =>
-      have : execOp repaired svc pol (readOp .tick) ⟨[], [], .finDrain, ⟨some ⟨true, true, true, false⟩, none, res, n⟩, wc, ws⟩
+      have : execOp repaired svc pol (readOp .tick) ⟨[], [], srv, ⟨some ⟨true, true, true, false⟩, none, res, n⟩, wc, ws⟩
           = ⟨[], [], .boundary, ⟨some ⟨true, true, true, true⟩, none, .fin, n⟩, wc ++ [.it .inp, .eos], ws⟩ := by
-        simp [execOp, readOp, cliStart, Sess.close, round, srvFold, srvOn, cliFold_idle]
+        simp [execOp, readOp, cliStart, Sess.close, round, (draining_fold svc hdr).2.2.2, srvFold_nil, cliFold_idle]
       rw [this]; exact Phase.closed _ _ _ _ _ rfl
     | send =>
-      have : execOp repaired svc pol (readOp .send) ⟨[], [], .finDrain, ⟨some ⟨true, true, true, false⟩, none, res, n⟩, wc, ws⟩
-          = ⟨[], [], .finDrain, ⟨some ⟨true, true, true, false⟩, none, .fin, n⟩, wc ++ [.it .inp], ws⟩ := by
-        simp [execOp, readOp, cliStart, round, srvFold, srvOn, cliFold_idle]
-      rw [this]; exact Phase.ended ..
+      have : execOp repaired svc pol (readOp .send) ⟨[], [], srv, ⟨some ⟨true, true, true, false⟩, none, res, n⟩, wc, ws⟩
+          = ⟨[], [], srv, ⟨some ⟨true, true, true, false⟩, none, .fin, n⟩, wc ++ [.it .inp], ws⟩ := by
+        simp [execOp, readOp, cliStart, round, (draining_fold svc hdr).1, srvFold_nil, cliFold_idle]
+      rw [this]; exact Phase.ended _ _ _ _ _ hdr
 
 /-- after `close()` / `cancel()`: no session, or a closed one, and the server is back at the request boundary -/
 inductive Done : St → Prop
@@ -484,15 +505,20 @@ theorem step_end (svc : Svc) (pol : Nat → Bool) (c : Bool) {st : St} (h : Phas
         = ⟨[], [], .boundary, ⟨some s, none, if c then .closed else .cancelled, n⟩, wc, ws⟩ := by
       cases c <;> simp [execOp, cliStart, Cli.fin, hs, round_quiet]
     rw [this]; exact Done.closed s _ n wc ws hs
-  | refused res n wc ws =>
-    have : execOp repaired svc pol (if c then .close else .cancel)
-          ⟨[], errStream, .refOpen, ⟨some .fresh, none, res, n⟩, wc, ws⟩
-        = ⟨[], [], .boundary, ⟨some ⟨true, true, true, true⟩, none, if c then .closed else .cancelled, n⟩,
-           wc ++ endInput .fresh (if c then [] else [.it .cancel]), ws⟩ := by
-      cases c <;>
-        simp [execOp, cliStart, Sess.fresh, errStream, round, srvFold, srvOn, cliFold, cliOn, updSess, Sess.close,
-          endInput, cliFold_idle]
-    rw [this]; exact Done.closed _ _ _ _ _ rfl
+  | refused xs res n wc ws =>
+    let extra : List CFr := if c then [] else [.it .cancel]
+    have hstart : cliStart (if c then .close else .cancel) ⟨some .fresh, none, res, n⟩
+        = (⟨some ⟨true, false, false, true⟩, some (.closeOpen (if c then .closed else .cancelled)), res, n⟩,
+           .op :: (extra ++ [.eos])) := by
+      cases c <;> simp [cliStart, Sess.fresh, Sess.close, endInput, extra]
+    have hsrv : srvFold repaired svc .refOpen ([] ++ .op :: (extra ++ [.eos])) = (.boundary, [], []) := by
+      cases c <;> simp [extra, srvFold, srvOn]
+    obtain ⟨r', n', hd⟩ := cliFold_sessDrain pol xs [] ⟨true, true, false, true⟩ (if c then .closed else .cancelled) true res n
+    have hcli : cliFold repaired pol ⟨some ⟨true, false, false, true⟩, some (.closeOpen (if c then .closed else .cancelled)), res, n⟩
+        ((.op :: (its xs ++ [.eos])) ++ []) = (⟨some ⟨true, true, true, true⟩, none, r', n'⟩, [], []) := by
+      simp [cliFold, cliOn, updSess, hd]
+    rw [execOp_eq hstart, round_eq hsrv hcli, List.append_nil, round_quiet, round_quiet]
+    exact Done.closed _ _ _ _ _ rfl
   | fresh ex hdr il steps res n wc ws =>
     let hl : List SItem := if hdr then [] else List.replicate il SItem.log
     have hhl : (if hdr then [] else logs il) = its hl := by
@@ -522,27 +548,33 @@ theorem step_end (svc : Svc) (pol : Nat → Bool) (c : Bool) {st : St} (h : Phas
     obtain ⟨r', n', hd⟩ := cliFold_sessDrain pol pend [] ⟨true, true, false, true⟩ (if c then .closed else .cancelled) true res n
     rw [execOp_eq hstart, round_eq hsrv hd, List.append_nil, round_quiet, round_quiet]
     exact Done.closed _ _ _ _ _ rfl
-  | ending pend res n wc ws =>
+  | ending srv pend res n wc ws hdr =>
     let extra : List CFr := if c then [] else [.it .cancel]
     have hstart : cliStart (if c then .close else .cancel) ⟨some both, none, res, n⟩
         = (⟨some ⟨true, true, false, true⟩, some (.sessDrain (if c then .closed else .cancelled) true), res, n⟩,
            extra ++ [.eos]) := by
       cases c <;> simp [cliStart, both, Sess.close, endInput, extra]
-    have hsrv : srvFold repaired svc .finDrain ([] ++ (extra ++ [.eos])) = (.boundary, [], []) := by
-      cases c <;> simp [extra, srvFold, srvOn]
+    have hsrv : srvFold repaired svc srv ([] ++ (extra ++ [.eos])) = (.boundary, [], []) := by
+      cases c
+      · simpa [extra] using (draining_fold svc hdr).2.2.1
+      · simpa [extra] using (draining_fold svc hdr).2.1
     obtain ⟨r', n', hd⟩ := cliFold_sessDrain pol pend [] ⟨true, true, false, true⟩ (if c then .closed else .cancelled) true res n
     have hcli : cliFold repaired pol ⟨some ⟨true, true, false, true⟩, some (.sessDrain (if c then .closed else .cancelled) true), res, n⟩
         ((its pend ++ [.eos]) ++ []) = (⟨some ⟨true, true, true, true⟩, none, r', n'⟩, [], []) := by
       rw [List.append_nil]; exact hd
     rw [execOp_eq hstart, round_eq hsrv hcli, List.append_nil, round_quiet, round_quiet]
     exact Done.closed _ _ _ _ _ rfl
-  | ended res n wc ws =>
-    have : execOp repaired svc pol (if c then .close else .cancel)
-          ⟨[], [], .finDrain, ⟨some ⟨true, true, true, false⟩, none, res, n⟩, wc, ws⟩
-        = ⟨[], [], .boundary, ⟨some ⟨true, true, true, true⟩, none, if c then .closed else .cancelled, n⟩,
-           wc ++ endInput ⟨true, true, true, false⟩ (if c then [] else [.it .cancel]), ws⟩ := by
-      cases c <;> simp [execOp, cliStart, Sess.close, endInput, round, srvFold, srvOn, cliFold_idle]
-    rw [this]; exact Done.closed _ _ _ _ _ rfl
+  | ended srv res n wc ws hdr =>
+    let extra : List CFr := if c then [] else [.it .cancel]
+    have hstart : cliStart (if c then .close else .cancel) ⟨some ⟨true, true, true, false⟩, none, res, n⟩
+        = (⟨some ⟨true, true, true, true⟩, none, if c then .closed else .cancelled, n⟩, extra ++ [.eos]) := by
+      cases c <;> simp [cliStart, Sess.close, endInput, extra]
+    have hsrv : srvFold repaired svc srv ([] ++ (extra ++ [.eos])) = (.boundary, [], []) := by
+      cases c
+      · simpa [extra] using (draining_fold svc hdr).2.2.1
+      · simpa [extra] using (draining_fold svc hdr).2.1
+    rw [execOp_eq hstart, round_eq hsrv (cliFold_idle repaired pol _ _ _ _), List.append_nil, round_quiet, round_quiet]
+    exact Done.closed _ _ _ _ _ rfl
 
 theorem step_sop (svc : Svc) (pol : Nat → Bool) (o : SOp) {st : St} (h : Phase st) :
     Phase (execOp repaired svc pol o.toOp st) := by
@@ -619,11 +651,18 @@ theorem unary_call (svc : Svc) (pol : Nat → Bool) (r : Request)
   exact Done.noSess ..
 
 /-- what the server does with the request of a stream call whose shape both sides agree on -/
+theorem errStream_its : errStream = .op :: (its [SItem.err] ++ [.eos]) := rfl
+
+theorem errStreamL_its (n : Nat) : errStreamL n = .op :: (its (List.replicate n SItem.log ++ [.err]) ++ [.eos]) := by
+  simp [errStreamL, logs, its]
+
 theorem dispatch_stream {svc : Svc} {r : Request} {hdr : Bool}
     (hag : ∀ m, svc.methods[r.method]? = some m → ∃ ex il init steps, m = .stream ex hdr il init steps)
     (hk : hdr = false → r.method < svc.methods.length) :
-    -- refused / failed init: error stream; the input of a header-less stream is awaited and drained
-    dispatch repaired svc r = (if hdr then .boundary else .refOpen, errStream) ∨
+    -- refused / failed init: an error stream (after a failed init it carries the logs emitted before the failure);
+    -- the input of a header-less stream is awaited and drained
+    (∃ xs, SItem.data ∉ xs ∧
+      dispatch repaired svc r = (if hdr then .boundary else .refOpen, .op :: (its xs ++ [.eos]))) ∨
     -- started: the header stream (when declared), then the input stream is awaited
     (∃ ex il steps, dispatch repaired svc r
         = (.inOpen ex hdr il steps, if hdr then .op :: (its (List.replicate il SItem.log ++ [.data]) ++ [.eos]) else [])) := by
@@ -631,7 +670,7 @@ theorem dispatch_stream {svc : Svc} {r : Request} {hdr : Bool}
   cases hm : svc.methods[r.method]? with
   | none =>
     cases hdr with
-    | true => left; simp
+    | true => left; exact ⟨[.err], by simp, by simp [errStream_its]⟩
     | false =>
       have := hk rfl
       simp at hm
@@ -641,13 +680,14 @@ theorem dispatch_stream {svc : Svc} {r : Request} {hdr : Bool}
     by_cases hv : r.versionOk <;> by_cases hp : r.paramsOk
     · by_cases hi : initFails hdr init
       · left
-        cases hdr <;> simp [hv, hp, hi, refuse, Method.headerless]
+        refine ⟨List.replicate il SItem.log ++ [.err], by simp, ?_⟩
+        cases hdr <;> simp [hv, hp, hi, refuse, Method.headerless, errStreamL_its]
       · right
         refine ⟨ex, il, steps, ?_⟩
         cases hdr <;> simp [hv, hp, hi, its_logs, its]
-    · left; cases hdr <;> simp [hv, hp, refuse, Method.headerless]
-    · left; cases hdr <;> simp [hv, refuse, Method.headerless]
-    · left; cases hdr <;> simp [hv, refuse, Method.headerless]
+    · left; exact ⟨[.err], by simp, by cases hdr <;> simp [hv, hp, refuse, Method.headerless, errStream_its]⟩
+    · left; exact ⟨[.err], by simp, by cases hdr <;> simp [hv, refuse, Method.headerless, errStream_its]⟩
+    · left; exact ⟨[.err], by simp, by cases hdr <;> simp [hv, refuse, Method.headerless, errStream_its]⟩
 
 /-- opening a stream from a synced connection ends in a phase -/
 theorem open_call (svc : Svc) (pol : Nat → Bool) (r : Request) (hdr : Bool)
@@ -661,10 +701,10 @@ theorem open_call (svc : Svc) (pol : Nat → Bool) (r : Request) (hdr : Bool)
       simp [cliStart]
     rw [execOp_eq hstart]
     apply phase_rounds1
-    rcases dispatch_stream hag hk with hd | ⟨ex, il, steps, hd⟩
-    · have hsrv : srvFold repaired svc .boundary ([] ++ reqFrames r) = (.refOpen, [], errStream) := by
+    rcases dispatch_stream hag hk with ⟨xs, _, hd⟩ | ⟨ex, il, steps, hd⟩
+    · have hsrv : srvFold repaired svc .boundary ([] ++ reqFrames r) = (.refOpen, [], .op :: (its xs ++ [.eos])) := by
         rw [List.nil_append, srvFold_req, hd]; simp
-      rw [round_eq hsrv (cliFold_idle repaired pol _ _ _ _)]
+      rw [round_eq hsrv (cliFold_idle repaired pol _ _ _ _), List.nil_append, List.nil_append]
       exact Phase.refused ..
     · have hsrv : srvFold repaired svc .boundary ([] ++ reqFrames r) = (.inOpen ex false il steps, [], []) := by
         rw [List.nil_append, srvFold_req, hd]; simp
@@ -674,21 +714,31 @@ theorem open_call (svc : Svc) (pol : Nat → Bool) (r : Request) (hdr : Bool)
     have hstart : cliStart (.open_ r true) Cli.idle = (⟨none, some .hdrOpen, .none, 0⟩, reqFrames r) := by
       simp [cliStart]
     rw [execOp_eq hstart]
-    rcases dispatch_stream hag hk with hd | ⟨ex, il, steps, hd⟩
-    · -- error stream in place of the header: RpcError, no session
-      have hsrv : srvFold repaired svc .boundary ([] ++ reqFrames r) = (.boundary, [], errStream) := by
+    have hopen : ∀ fs, cliFold repaired pol ⟨none, some .hdrOpen, .none, 0⟩ ([] ++ .op :: fs)
+        = cliFold repaired pol ⟨none, some .hdrRead, .none, 0⟩ fs := by
+      intro fs; simp [cliFold, cliOn, Cli.wait]
+    rcases dispatch_stream hag hk with ⟨xs, hnd, hd⟩ | ⟨ex, il, steps, hd⟩
+    · -- error stream in place of the header (after a failed init: with the logs emitted before the failure)
+      have hsrv : srvFold repaired svc .boundary ([] ++ reqFrames r) = (.boundary, [], .op :: (its xs ++ [.eos])) := by
         rw [List.nil_append, srvFold_req, hd]; simp
-      have hcli : cliFold repaired pol ⟨none, some .hdrOpen, .none, 0⟩ ([] ++ errStream)
-          = (⟨none, none, .error, 0⟩, [], []) := by
-        simp [errStream, cliFold, cliOn, Cli.wait, Cli.fin]
-      rw [round_eq hsrv hcli, List.append_nil, round_quiet, round_quiet]
-      exact Phase.noSess ..
+      rcases cliFold_hdrRead pol xs .none 0 with ⟨n', _, hm⟩ | ⟨n', h, _⟩ | ⟨n', h, _⟩
+      · exact absurd hm hnd
+      · -- RpcError, no session
+        rw [round_eq hsrv ((hopen _).trans h), List.append_nil, round_quiet, round_quiet]
+        exact Phase.noSess ..
+      · -- the callback raised on one of those logs: the throw-away close() writes an empty stream; the server, back
+        -- at the request boundary, answers it as an (empty) request, and that answer is what the close() drains
+        rw [round_eq hsrv ((hopen _).trans h), List.nil_append]
+        have hsrv2 : srvFold repaired svc .boundary [.op, .eos] = (.boundary, [], errStream) := by
+          simp [srvFold, srvOn]
+        have hcli2 : cliFold repaired pol ⟨none, some .abortOpen, .none, n'⟩ ([] ++ errStream)
+            = (⟨none, none, .raised, n'⟩, [], []) := by
+          simp [errStream, cliFold, cliOn, Cli.wait, Cli.fin]
+        rw [round_eq hsrv2 hcli2, List.append_nil, round_quiet]
+        exact Phase.noSess ..
     · have hsrv : srvFold repaired svc .boundary ([] ++ reqFrames r)
           = (.inOpen ex true il steps, [], .op :: (its (List.replicate il SItem.log ++ [.data]) ++ [.eos])) := by
         rw [List.nil_append, srvFold_req, hd]; simp
-      have hopen : ∀ fs, cliFold repaired pol ⟨none, some .hdrOpen, .none, 0⟩ ([] ++ .op :: fs)
-          = cliFold repaired pol ⟨none, some .hdrRead, .none, 0⟩ fs := by
-        intro fs; simp [cliFold, cliOn, Cli.wait]
       rcases cliFold_hdrRead pol (List.replicate il SItem.log ++ [.data]) .none 0 with
         ⟨n', h, _⟩ | ⟨n', _, hm⟩ | ⟨n', h, _⟩
       · -- header read: a fresh session
